@@ -347,16 +347,16 @@ def prepare(params):
 
 
 VIEWS = ["m", "m[2:]", "m[3]", "m[:, 2:5]", "m[1:5, 3:7]", "m[::2]", "m[:, ::3]", "np.asarray(m)[2:]", "m[4:, 1]",
-         "f", "f[2:]", "f[:, 1:4]", "m[1:2, :]"]
+         "f", "f[2:]", "f[:, 1:4]", "m[1:2, :]", "m.T", "m[::-1]", "m.T[1:]", "m[::-1, ::2]", "f.T"]
 
 
 def ob_memmap_reduce(vi: int) -> bool:
     """
-    pre: 0 <= vi <= 12
+    pre: 0 <= vi <= 17
     post: _
     """
     H.enter()
-    v = H.select(vi, 0, 12)
+    v = H.select(vi, 0, 17)
     with H.native():
         import numpy as np
         from joblib._memmapping_reducer import _get_backing_memmap, _reduce_memmap_backed
@@ -409,5 +409,5 @@ def obligations(tier, seed):
     obs.append({"name": "mmap", "fn": "ob_mmap", "mode": "S", "numpy": True, "timeout": 1500,
                 "bounds": "13 dtypes x 7 shapes x C/F x 4 mmap modes x 4 leading-string lengths"})
     obs.append({"name": "memmap_reduce", "fn": "ob_memmap_reduce", "mode": "S", "numpy": True, "params": {"memmap": True},
-                "timeout": 300, "bounds": "13 views of C- and F-ordered read-only memmaps with a non-zero file offset"})
+                "timeout": 300, "bounds": "18 views (slices, rows, columns, strided, transposed, reversed) of C- and F-ordered read-only memmaps with a non-zero file offset"})
     return obs
